@@ -51,16 +51,27 @@ def side_fn(ctx, crate, fn, running, fixed, deltas, clause):
     for d in deltas:
         e = Engine(crate); r = e.run(fn, [param("hash"), C('u8', d)] + ([param("result")] if fn.split("::")[-1].startswith("append_") else []))
         ctx.functions |= e.visited_fns
+        from rules.common import loop_var_range, loop_bound_from_facts
         pushes = [ev for ev in e.events.values() if ev.callee and strip_generics(ev.callee).endswith("Vec::push")]
-        iters = [ev for ev in e.events.values() if ev.callee and "IntoIterator>::into_iter" in strip_generics(ev.callee)]
-        if len(pushes) != 1 or len(iters) != 1:
-            bad.append((d, "expected one push in one loop, found %d/%d" % (len(pushes), len(iters)))); continue
-        rng = iters[0].args[0]
-        ok_rng = rng[0] == 'agg' and rng[1] == 'adt:std::ops::Range' and rng[3][0] == C('u32', 0) and rng[3][1] == C('u32', 1 << d)
-        if not ok_rng: bad.append((d, "loop range is %s, expected 0..%d" % (show(rng), 1 << d))); continue
+        if len(pushes) != 1:
+            bad.append((d, "expected one push site, found %d" % len(pushes))); continue
         val = pushes[0].args[1]
-        # the loop variable: the opaque payload of Iterator::next
-        loopvars = {x for x in walk(val) if x[0] == 'fld' and x[1][0] == 'dc'}
+        # the loop variable: payload of Range::next (for-loop) or a counter merged at the loop head (while-loop)
+        loopvars = set(); rng_ok = None
+        for x in walk(val):
+            if (x[0] == 'fld' and x[1][0] == 'dc') or x[0] == 'phi':
+                lr = loop_var_range(e, x)
+                if lr is None: continue
+                start, end = lr
+                if end is None: end = loop_bound_from_facts(pushes[0].facts, x)
+                loopvars.add(x)
+                rng_ok = (start is not None and start[0] == 'c' and start[2] == 0 and end is not None and end[0] == 'c' and end[2] == (1 << d), show(start), show(end) if end else None)
+        if rng_ok is None:
+            if d == 0:
+                rng_ok = (True, "0", "1")       # 2^0 = 1 iteration; the coordinate spreads to 0 bits: nothing to find in the value
+            else:
+                bad.append((d, "no loop counter found in the pushed value %s" % show(val)[:80])); continue
+        if not rng_ok[0]: bad.append((d, "loop range is %s..%s, expected 0..%d" % (rng_ok[1], rng_ok[2], 1 << d))); continue
         hb = sym_bits('h', 64, 64 - 2 * d)
         kb = sym_bits('k', 32, d)
         inputs = {param("hash"): hb}
